@@ -15,6 +15,8 @@ struct VertexOnly { @location(0) p: vec4<f32>, @builtin(vertex_index) vi: u32 }
 struct Both { @location(0) p: vec3<f32>, @location(1) w: f32 }
 struct FragIn { @location(0) c: vec4<f32> }
 struct VsOut { @builtin(position) pos: vec4<f32>, @location(0) c: vec4<f32> }
+struct BigArr { n: u32, data: array<vec4<f32>, 7> }
+@group(0) @binding(3) var<uniform> bigarr: BigArr;
 @group(0) @binding(0) var<uniform> host: HostOnly;
 @group(0) @binding(1) var<uniform> both: Both;
 const K: u32 = 3u;
@@ -28,7 +30,7 @@ SRC_RT = SRC_NO_RT + '''struct RtHost { n: u32, data: array<vec4<f32>> }
 @group(0) @binding(2) var<storage, read> rt: RtHost;
 '''
 ROLES = {'Inner': ('host', False), 'HostOnly': ('host', False), 'VertexOnly': ('vertex', False), 'Both': ('host', False),
-         'FragIn': ('other', False), 'RtHost': ('host', True)}
+         'FragIn': ('other', False), 'RtHost': ('host', True), 'BigArr': ('host', False)}
 
 
 def expected_derives(role, rt, o):
@@ -70,17 +72,24 @@ def run(ctx):
     S, c = ctx.S, ctx.S.conv
     o = {k: z3.Bool(k) for k in ('derive_bytemuck_vertex', 'derive_bytemuck_host_shareable', 'derive_encase_host_shareable', 'derive_serde')}
     fmt = z3.BitVec('matrix_vector_types', 64)
-    ctx.bounds = {'options': 'all 2^4 switches x 3 representations (symbolic)', 'struct roles': list(ROLES)}
+    alen = z3.BitVec('array_length', 32)
+    ctx.bounds = {'array length of one host struct member': 'symbolic, 1..4096', 'options': 'all 2^4 switches x 3 representations (symbolic)', 'struct roles': list(ROLES)}
     ctx.assumptions += ['struct roles come from one template holding every role; symbolic reachability is C08',
                         'non-interference is checked on the token stream handed to the printer (formatter: C19, validation: C17)']
     seen = {}
     for label, src in (('no-runtime-array', SRC_NO_RT), ('runtime-array', SRC_RT)):
         with_rt = src is SRC_RT
         module = S.module(src)
+        # the length of BigArr.data is symbolic (1..4096): derives must not depend on it
+        mj_ = S.dump(src)['module']
+        arr_h = next(i for i, t in enumerate(mj_['types']) if t['inner'].get('Array', {}).get('size') == {'Constant': 7})
+        c.get(c.get(module, 'types').fields[0].items[arr_h], 'inner').fields[1] = c.enum('ArraySize', 'Constant', [alen])
+        module.sym_types = {arr_h, next(i for i, t in enumerate(mj_['types']) if t['name'] == 'BigArr')}
         env = env_passthrough(module, src)
         res = ctx.explore(f'create_shader_module_inner/options/{label}',
                           lambda it: it.call('create_shader_module_inner', [src, none(), write_options(S.conv, matrix_vector_types=fmt, **o)]),
-                          assume=[z3.ULT(fmt, 3)], env=env, anchors=['structs', 'rust_struct', 'create_shader_module_inner'], timeout_s=3000)
+                          assume=[z3.ULT(fmt, 3), z3.UGE(alen, 1), z3.ULE(alen, 4096)], env=env,
+                          anchors=['structs', 'rust_struct', 'create_shader_module_inner'], timeout_s=3000)
         groups = {}
         for pc, kind, out, _ in res:
             # documented refusals: runtime array without encase; runtime array with bytemuck on that role (host)
@@ -107,7 +116,7 @@ def run(ctx):
                 seen[key] = seen.get(key, 0) + 1
                 if seen[key] == 1:
                     opts = {k: model_value(m, v) for k, v in o.items()}
-                    rep, det = replay(ctx, src, opts, model_value(m, fmt), with_rt)
+                    rep, det = replay(ctx, src.replace('array<vec4<f32>, 7>', f'array<vec4<f32>, {model_value(m, alen)}>'), opts, model_value(m, fmt), with_rt)
                     ctx.report(key, f'"{failed[0]}" with options {opts}', det, rep, det)
             # non-interference: everything that is not a struct item / layout assertion must be identical on all paths;
             # struct items may differ only in attributes and (per representation) field types
